@@ -1,6 +1,6 @@
 CONSTANTS
   Threads = {"main", "w0", "w1"}
-  MCcfg <- S_s1p0
+  MCcfg <- S_limit
 INIT Init
 NEXT Next
 CHECK_DEADLOCK TRUE
